@@ -76,6 +76,27 @@ def signed_text(text: bytes) -> bool:
     return got == rfc71(text) + R.trailer(1, 22, 8, AREA0)
 
 
+@ob('O11.1-long', 'the canonical form does not depend on how many lines there are: k complete lines (LF or CRLF ended) followed by a short symbolic tail are hashed as RFC 4880 7.1 says',
+    'k by symbolic index from 0..12 lines "x" ended by LF or (symbolic choice) CRLF; tail of 0..2 symbolic octets without a trailing blank', cond_timeout={'q': 280, 't': 600},
+    partitions=[['k < 7'], ['k >= 7']])
+def signed_text_many_lines(k: int, crlf: bool, tail: bytes) -> bool:
+    """
+    pre: 0 <= k <= 12
+    pre: len(tail) <= 2
+    pre: not has_trailing_blank(tail)
+    post: _
+    """
+    kc = 0
+    for j in range(13):
+        if k == j:
+            kc = j
+    line = b'x\r\n' if crlf else b'x\n'
+    text = b''.join([line] * kc) + bytes(tail)
+    sig = mk_sig(SignatureType.CanonicalDocument)
+    got = bytes(sig.hashdata(text))
+    return got == rfc71(text) + R.trailer(1, 22, 8, AREA0)
+
+
 @ob('O11.1k', 'witness of KF-C11-trailing-blanks: trailing SP/HT at the end of a line are hashed although RFC 4880 7.1 removes them',
     'text of 2..3 symbolic octets containing a blank before a line end', cond_timeout={'q': 120, 't': 120}, known='KF-C11-trailing-blanks', twin=False)
 def signed_text_trailing_blank(text: bytes) -> bool:
@@ -221,6 +242,6 @@ def cleartext_roundtrip_non_ascii(u: int, n: int, c0: int) -> bool:
             return False
 
 
-SANITY = ['cleartext_roundtrip(3, 0, 3, 0, 0)', 'cleartext_roundtrip(4, 1, 1, 3, 1)', 'cleartext_roundtrip(2, 6, 0, 0, 0)', 'cleartext_roundtrip(0, 0, 0, 0, 0)', 'signed_text(b"a\\nb")', 'signed_text(b"a\\r\\nb")', 'signed_text(b"\\n\\n")', 'signed_text(b"a\\rb")', 'signed_text(b" a\\tb")', 'signed_text(b"")',
+SANITY = ['signed_text_many_lines(12, False, b"a")', 'signed_text_many_lines(9, True, b"\\n")', 'signed_text_many_lines(0, False, b"")'] + ['cleartext_roundtrip(3, 0, 3, 0, 0)', 'cleartext_roundtrip(4, 1, 1, 3, 1)', 'cleartext_roundtrip(2, 6, 0, 0, 0)', 'cleartext_roundtrip(0, 0, 0, 0, 0)', 'signed_text(b"a\\nb")', 'signed_text(b"a\\r\\nb")', 'signed_text(b"\\n\\n")', 'signed_text(b"a\\rb")', 'signed_text(b" a\\tb")', 'signed_text(b"")',
           'cleartext_sign("abc", 1, 1, 0)', 'cleartext_sign("", 2, 0, 0)', 'cleartext_sign("x", 2, 3, 1)',
           'rfc71(b"a \\t\\nb ") == b"a\\r\\nb"', 'has_trailing_blank(b"a \\n") and has_trailing_blank(b" ") and not has_trailing_blank(b" a") and has_trailing_blank(b"a \\r\\n")']
